@@ -1,10 +1,110 @@
 import MazeVerif.DriverOps.Util
+import MazeVerif.Model.Gen
 namespace MZ.Drv.C01
-open Lean MZ.Drv
+open Lean MZ.Drv MZ
 
-/-- driver ops of property C01 (`"op": "C01.<name>"`) -/
-def handle (op : String) (_j : Json) : R Json := do
+/-- a Python number argument: `null` | `{"int": n}` | `{"ratio": [num, den], "neg": bool}` (an exact double) -/
+inductive PyNum where
+  | none | int (n : Int) | flt (neg : Bool) (num den : Nat)
+
+def asPyNum (j : Option Json) : R PyNum := do
+  match j with
+  | none => pure .none
+  | some v =>
+    match optFld v "int" with
+    | some n => pure (.int (← n.getInt?))
+    | none =>
+      let r ← getNatList v "ratio"
+      let neg ← getBool v "neg"
+      match r with
+      | [a, b] => pure (.flt neg a b)
+      | _ => throw "ratio: expected [num, den]"
+
+/-- `int(x * k)` for the double `x = ±num/den` and the integer `k`, in IEEE double arithmetic like CPython -/
+def floatTimesTrunc (neg : Bool) (num den : Nat) (k : Nat) : Int :=
+  -- |x * k| is the same double for both signs; `int()` truncates toward zero
+  let t : Nat := (Float.ofNat num / Float.ofNat den * Float.ofNat k).floor.toUInt64.toNat
+  if neg then -((t : Nat) : Int) else ((t : Nat) : Int)
+
+/-- argument handling of `gen_dfs` (generators.py:88-118): returns `(n_accessible_cells, max_tree_depth)` as the code
+    stores them in `generation_meta` -/
+def dfsArgs (rows cols : Nat) (acc depth : PyNum) : Int × Int :=
+  let nTotal := rows * cols
+  let nAcc : Int := match acc with
+    | .none => nTotal
+    | .int n => n
+    | .flt neg a b => floatTimesTrunc neg a b nTotal
+  let md : Int := match depth with
+    | .none => 2 * nTotal
+    | .int n => n
+    | .flt neg a b => floatTimesTrunc neg a b (rows + cols)
+  (nAcc, md)
+
+def getRands (j : Json) : R (List (Nat × Nat)) := do
+  match optFld j "rands" with
+  | none => pure []
+  | some v =>
+    (← v.getArr?).toList.mapM fun x => do
+      match ← asNatList x with
+      | [a, b] => pure (a, b)
+      | _ => throw "rand: expected [num, den]"
+
+def jDfsOut (o : DfsOut) (nAcc md : Int) : Json :=
+  obj [("ok", true), ("edges", jEdges o.edges), ("start", jCell o.start), ("visited", jCells o.visited),
+       ("fully_connected", o.fullyConnected), ("n_accessible_cells", jInt nAcc), ("max_tree_depth", jInt md),
+       ("leftover", jNat o.leftover.length)]
+
+def handle (op : String) (j : Json) : R Json := do
   match op with
+  | "C01.gen" =>
+    let gen ← getStr j "gen"
+    let rows ← getNat j "rows"; let cols ← getNat j "cols"
+    let draws ← getNatList j "draws"
+    let given : Option Cell ← match optFld j "start" with
+      | none => pure none
+      | some v => pure (some (← asCell v))
+    let fuel := 8 * rows * cols + 16
+    match gen with
+    | "dfs" | "prim" | "dfs_percolation" =>
+      let acc ← asPyNum (optFld j "accessible_cells")
+      let depth ← asPyNum (optFld j "max_tree_depth")
+      let (nAcc, md) := dfsArgs rows cols acc depth
+      let doForks := (optFld j "do_forks").map (fun v => v.getBool?.toOption.getD true) |>.getD true
+      let rs := (optFld j "randomized_stack").map (fun v => v.getBool?.toOption.getD false) |>.getD false
+      let a : Args := { nAcc := nAcc.toNat, maxDepth := md, doForks := doForks, randStack := rs }
+      if gen == "dfs" then
+        match genDfsTop rows cols a given draws fuel with
+        | some o => pure (jDfsOut o nAcc md)
+        | none => pure (obj [("ok", false)])
+      else if gen == "prim" then
+        match genPrimTop rows cols a given draws fuel with
+        | some o => pure (jDfsOut o nAcc md)
+        | none => pure (obj [("ok", false)])
+      else
+        let p ← getNatList j "p"
+        let rands ← getRands j
+        match p with
+        | [pn, pd] =>
+          match genDfsPercolationTop rows cols (pn, pd) a given draws rands fuel with
+          | some o => pure (obj [("ok", true), ("edges", jEdges o.edges), ("start", jCell o.start),
+              ("visited", jCells o.visited), ("fully_connected", o.fullyConnected),
+              ("n_accessible_cells", jInt nAcc), ("max_tree_depth", jInt md), ("dfs_edges", jEdges o.dfsEdges)])
+          | none => pure (obj [("ok", false)])
+        | _ => throw "p: expected [num, den]"
+    | "wilson" =>
+      match genWilsonTop rows cols draws (64 * (draws.length + rows * cols) + 64) with
+      | some s => pure (obj [("ok", true), ("edges", jEdges s.E), ("leftover", jNat s.rng.length), ("fully_connected", true)])
+      | none => pure (obj [("ok", false)])
+    | "percolation" =>
+      let p ← getNatList j "p"
+      let rands ← getRands j
+      match p with
+      | [pn, pd] =>
+        match genPercolationTop rows cols (pn, pd) given draws rands fuel with
+        | some o => pure (obj [("ok", true), ("edges", jEdges o.edges), ("start", jCell o.start), ("visited", jCells o.visited)])
+        | none => pure (obj [("ok", false)])
+      | _ => throw "p: expected [num, den]"
+    | g => throw s!"unknown generator {g}"
   | _ => throw s!"unknown op {op}"
 
 end MZ.Drv.C01
